@@ -6,7 +6,8 @@ open Pyemv Pyemv.Gen
 
 theorem ac_generate_arpc_2 (sk q csu : Bytes) (p : Option Bytes) : Gen.ac.generate_arpc_2 sk q csu p = generateArpc2 sk q csu p := by
   unfold Gen.ac.generate_arpc_2 generateArpc2
-  simp only [mac_mac3, bind, Except.bind, pure, Except.pure]
+  try simp only [bind_pure]      -- `do let v ← e; pure v` is `e` (single-exit rewrites)
+  simp only [mac_mac3, bind, Except.bind, pure, Except.pure, except_match_eta]
   repeat (first | rfl | split)
   all_goals first | (simp_all; done) | slice_forms
 
